@@ -20,12 +20,15 @@ def order_type(vals):
     return [r[v] for v in vals]
 
 
+BOOST = int(os.environ.get("VERIF_BOOST", "1"))
+
+
 def run(rng, tier, res=None):
     load_opfython()
     import opfython.math.distance as dist
     from opfython.models.supervised import SupervisedOPF
     res = res or Result("c11")
-    ncases = 60 if tier == "quick" else 800
+    ncases = (60 * BOOST) if tier == "quick" else 800
 
     def viol(msgs, meta):
         for m in (msgs if isinstance(msgs, list) else [msgs])[:3]:
